@@ -304,6 +304,85 @@ Qed.
 End RoundTripProofs.
 
 (* ====================================================================================== *)
+(* repeated use of one frame object                                                         *)
+(* ====================================================================================== *)
+Section FrameProofs.
+Variables (C T : Type).
+Variable process_table : T -> N -> list (list C).
+
+Lemma arrays_head (rows : list (list C)) ncols size :
+  to_arrow_cols rows ncols size = arrays (head size rows) ncols.
+Proof. unfold to_arrow_cols, arrays. destruct (head size rows); reflexivity. Qed.
+
+Lemma frame_rows_materialize (f : frame C T) :
+  frame_rows process_table (materialize process_table f) = frame_rows process_table f.
+Proof. destruct f; reflexivity. Qed.
+
+Lemma to_arrow_frame_spec (f : frame C T) ncols size :
+  to_arrow_frame process_table f ncols size =
+  (materialize process_table f, to_arrow_cols (frame_rows process_table f) ncols size).
+Proof.
+  unfold to_arrow_frame. rewrite arrays_head. unfold head. destruct size as [z|].
+  - destruct (0 <=? z)%Z.
+    + cbn [materialize frame_rows]. rewrite frame_rows_materialize. reflexivity.
+    + rewrite frame_rows_materialize. reflexivity.
+  - rewrite frame_rows_materialize. reflexivity.
+Qed.
+
+(* every call leaves the frame materialized and answers from the rows the frame holds *)
+Lemma fstep_spec ncols (f : frame C T) op :
+  fstep process_table ncols f op =
+  (materialize process_table f, expected_out (frame_rows process_table f) ncols op).
+Proof.
+  destruct op; cbn [fstep expected_out].
+  - rewrite to_arrow_frame_spec. reflexivity.
+  - rewrite frame_rows_materialize. reflexivity.
+  - reflexivity.
+Qed.
+
+Lemma frun_spec ncols ops : forall f : frame C T,
+  frun process_table ncols f ops = map (expected_out (frame_rows process_table f) ncols) ops.
+Proof.
+  induction ops as [|op ops IH]; intros f; cbn [frun map]; [reflexivity|].
+  rewrite fstep_spec. rewrite IH, frame_rows_materialize. reflexivity.
+Qed.
+
+Variable rows_of : T -> list (list C).
+Hypothesis process_ok : forall t b, (1 <= b)%N -> process_table t b = rows_of t.
+
+Lemma from_arrow_iter_parts (tables : list T) size :
+  tabs (@from_arrow_iter (list C) T tables size) = tables /\ cur (@from_arrow_iter (list C) T tables size) = [].
+Proof.
+  unfold from_arrow_iter. destruct size as [n|]; [destruct (n =? 0)%N|]; split; reflexivity.
+Qed.
+
+Lemma limit_length {A} size (l : list A) : length (limit size l) <= length l.
+Proof.
+  unfold limit. destruct size as [n|]; [|lia]. destruct (n =? 0)%N; [lia|]. rewrite firstn_length. lia.
+Qed.
+
+(* list(iterator) on the iterator from_arrow returns: all the rows, cut to the size *)
+Lemma collect_from_arrow (tables : list T) size :
+  collect process_table (from_arrow_iter tables size) = limit size (concat (map rows_of tables)).
+Proof.
+  unfold collect. rewrite (from_arrow_drain (list C) T process_table rows_of process_ok).
+  apply firstn_all2. unfold fuel_of.
+  destruct (from_arrow_iter_parts tables size) as [Ht Hc]. rewrite Ht, Hc.
+  pose proof (from_arrow_iter_bsz (list C) T tables size) as Hb.
+  assert (Hm : forall b, (1 <= b)%N -> map (fun t => process_table t b) tables = map rows_of tables)
+    by (intros b Hb1; apply map_ext; intros t; apply process_ok; exact Hb1).
+  rewrite (Hm _ Hb).
+  pose proof (limit_length size (concat (map rows_of tables))). cbn [length]. lia.
+Qed.
+
+Lemma frun_lazy (tables : list T) size ncols ops :
+  frun process_table ncols (FLazy (from_arrow_iter tables size)) ops =
+  map (expected_out (limit size (concat (map rows_of tables))) ncols) ops.
+Proof. rewrite frun_spec. cbn [frame_rows]. rewrite collect_from_arrow. reflexivity. Qed.
+
+End FrameProofs.
+
+(* ====================================================================================== *)
 (* (b) column typing                                                                        *)
 (* ====================================================================================== *)
 
@@ -340,22 +419,34 @@ Proof.
 Qed.
 
 (* from the typing part to whole columns: name carried both ways, nullability carried from the field *)
+(* the constructor leaves these attributes as they are: not DECIMAL, or precision and scale both given *)
+Definition ctor_fixed (t : N) (p s : option Z) : bool :=
+  negb (t =? ty_DECIMAL)%N || (negb (is_none p) && negb (is_none s)).
+
+Lemma flat_column_fixed nm t e p s nl :
+  ctor_fixed t p s = true -> flat_column nm t e p s nl = mkCol nm t e p s nl.
+Proof.
+  unfold ctor_fixed, flat_column. destruct (t =? ty_DECIMAL)%N; [|reflexivity].
+  destruct p, s; cbn; intros H; try discriminate H; reflexivity.
+Qed.
+
 Lemma trip_column nm nl t e p s t' e' p' s' :
-  type_trip t e p s = Ok (t', e', p', s') ->
+  type_trip t e p s = Ok (t', e', p', s') -> ctor_fixed t' p' s' = true ->
   exists f, arrow_field (mkCol nm t e p s nl) = Ok f /\ fname f = nm /\
             from_arrow_field false f = Ok (mkCol nm t' e' p' s' (fnullable f)).
 Proof.
   unfold type_trip, arrow_field, arrow_field_named. cbn [ctype celem cprec cscale cname].
   destruct (arrow_type_of t e p s) as [a|]; cbn [bind]; [|discriminate].
-  intros H. eexists. split; [reflexivity|]. split; [reflexivity|].
-  unfold from_arrow_field. cbn [ftype fname fnullable]. rewrite H. reflexivity.
+  intros H K. eexists. split; [reflexivity|]. split; [reflexivity|].
+  unfold from_arrow_field. cbn [ftype fname fnullable]. rewrite H. cbn [bind].
+  rewrite (flat_column_fixed _ _ _ _ _ _ K). reflexivity.
 Qed.
 
 Lemma from_arrow_field_carry mab f c :
   from_arrow_field mab f = Ok c -> cname c = fname f /\ cnullable c = fnullable f.
 Proof.
   unfold from_arrow_field. destruct (from_arrow_type mab (ftype f)) as [[[[t e] p] s]|]; cbn [bind]; [|discriminate].
-  intros H. inversion H. split; reflexivity.
+  intros H. inversion H. unfold flat_column. destruct (t =? ty_DECIMAL)%N; split; reflexivity.
 Qed.
 
 Lemma arrow_field_named_carry nm c f :
@@ -501,8 +592,9 @@ Lemma type_round_trip_plain t nm nl :
   exists f, arrow_field (mkCol nm t None None None nl) = Ok f /\ fname f = nm /\
             from_arrow_field false f = Ok (mkCol nm t None None None (fnullable f)).
 Proof.
-  intros Hin H1 H2 H3 Ha Hd. apply trip_column. fold all_types in Hin.
-  apply plain_trip; [exact Hin|apply excluded_false; assumption|exact Ha|exact Hd].
+  intros Hin H1 H2 H3 Ha Hd. apply trip_column.
+  - fold all_types in Hin. apply plain_trip; [exact Hin|apply excluded_false; assumption|exact Ha|exact Hd].
+  - unfold ctor_fixed. apply N.eqb_neq in Hd. rewrite Hd. reflexivity.
 Qed.
 
 Lemma type_round_trip_array e nm nl :
@@ -510,14 +602,18 @@ Lemma type_round_trip_array e nm nl :
   exists f, arrow_field (mkCol nm ty_ARRAY (Some e) None None nl) = Ok f /\ fname f = nm /\
             from_arrow_field false f = Ok (mkCol nm ty_ARRAY (Some e) None None (fnullable f)).
 Proof.
-  intros Hin H1 H2 H3. apply trip_column. apply elem_trip; [exact Hin|apply excluded_false; assumption].
+  intros Hin H1 H2 H3. apply trip_column; [|vm_compute; reflexivity].
+  apply elem_trip; [exact Hin|apply excluded_false; assumption].
 Qed.
 
 Lemma type_round_trip_decimal p s nm nl :
   (1 <= p <= 38)%Z -> (0 <= s <= p)%Z ->
   exists f, arrow_field (mkCol nm ty_DECIMAL None (Some p) (Some s) nl) = Ok f /\ fname f = nm /\
             from_arrow_field false f = Ok (mkCol nm ty_DECIMAL None (Some p) (Some s) (fnullable f)).
-Proof. intros Hp Hs. apply trip_column. apply decimal_trip; assumption. Qed.
+Proof.
+  intros Hp Hs. apply trip_column; [apply decimal_trip; assumption|].
+  unfold ctor_fixed. cbn [is_none negb andb]. apply orb_true_r.
+Qed.
 
 (* all three in one statement, with the guard the correspondence evaluates on every observed column *)
 Lemma excluded_neq t : excluded t = false -> t <> ty_STRUCT /\ t <> ty_JSONB /\ t <> ty_MISSING_TYPE.
@@ -593,12 +689,12 @@ Lemma binary_carried nm nl :
              from_arrow_field false f = Ok (mkCol nm ty_ARRAY (Some ty_VARCHAR) None None (fnullable f))).
 Proof.
   repeat split.
-  - destruct (trip_column nm nl _ _ _ _ _ _ _ _ struct_trip) as [f [H1 [_ H2]]]. exists f. split; assumption.
-  - destruct (trip_column nm nl _ _ _ _ _ _ _ _ jsonb_trip) as [f [H1 [_ H2]]]. exists f. split; assumption.
-  - destruct (trip_column nm nl _ _ _ _ _ _ _ _ missing_trip) as [f [H1 [_ H2]]]. exists f. split; assumption.
-  - destruct (trip_column nm nl _ _ _ _ _ _ _ _ array_struct_trip) as [f [H1 [_ H2]]]. exists f. split; assumption.
-  - destruct (trip_column nm nl _ _ _ _ _ _ _ _ array_jsonb_trip) as [f [H1 [_ H2]]]. exists f. split; assumption.
-  - destruct (trip_column nm nl _ _ _ _ _ _ _ _ array_missing_trip) as [f [H1 [_ H2]]]. exists f. split; assumption.
+  - destruct (trip_column nm nl _ _ _ _ _ _ _ _ struct_trip eq_refl) as [f [H1 [_ H2]]]. exists f. split; assumption.
+  - destruct (trip_column nm nl _ _ _ _ _ _ _ _ jsonb_trip eq_refl) as [f [H1 [_ H2]]]. exists f. split; assumption.
+  - destruct (trip_column nm nl _ _ _ _ _ _ _ _ missing_trip eq_refl) as [f [H1 [_ H2]]]. exists f. split; assumption.
+  - destruct (trip_column nm nl _ _ _ _ _ _ _ _ array_struct_trip eq_refl) as [f [H1 [_ H2]]]. exists f. split; assumption.
+  - destruct (trip_column nm nl _ _ _ _ _ _ _ _ array_jsonb_trip eq_refl) as [f [H1 [_ H2]]]. exists f. split; assumption.
+  - destruct (trip_column nm nl _ _ _ _ _ _ _ _ array_missing_trip eq_refl) as [f [H1 [_ H2]]]. exists f. split; assumption.
 Qed.
 
 Lemma stream_next_calls (R T : Type) (process_table : T -> N -> list R) (rows_of : T -> list R) :
@@ -676,6 +772,115 @@ Lemma arrow_schema_names use_ids cols fs :
   orso_to_arrow_schema use_ids cols = Ok fs ->
   map fname fs = map (fun ic => if use_ids then fst ic else cname (snd ic)) cols.
 Proof. apply mapM_arrow_names. Qed.
+
+(* ---------- repeated use of one frame ---------- *)
+Lemma repeated_export_lazy (C T : Type) (process_table : T -> N -> list (list C)) (rows_of : T -> list (list C)) :
+  (forall t b, (1 <= b)%N -> process_table t b = rows_of t) ->
+  forall (tables : list T) (size : option N) (ncols : nat) (ops : list fop),
+  frun process_table ncols (FLazy (from_arrow_iter tables size)) ops =
+  map (expected_out (limit size (concat (map rows_of tables))) ncols) ops.
+Proof. intros H tables size ncols ops. apply (frun_lazy C T process_table rows_of H). Qed.
+
+Lemma repeated_export_list (C T : Type) (process_table : T -> N -> list (list C)) :
+  forall (rows : list (list C)) (ncols : nat) (ops : list fop),
+  frun process_table ncols (FList rows) ops = map (expected_out rows ncols) ops.
+Proof. intros rows ncols ops. rewrite frun_spec. reflexivity. Qed.
+
+(* ---------- the constructor keeps the decimal parameters it is given ---------- *)
+Definition ps_eqb (a b : option Z * option Z) : bool := optZ_eqb (fst a) (fst b) && optZ_eqb (snd a) (snd b).
+
+Lemma ps_eqb_eq a b : ps_eqb a b = true -> a = b.
+Proof.
+  destruct a, b. unfold ps_eqb. cbn [fst snd]. intros H. apply andb_prop in H as [H1 H2].
+  apply optZ_eqb_eq in H1. apply optZ_eqb_eq in H2. congruence.
+Qed.
+
+Definition got_eqb (a b : option (option Z * option Z)) : bool :=
+  match a, b with Some x, Some y => ps_eqb x y | None, None => true | _, _ => false end.
+
+Lemma got_eqb_eq a b : got_eqb a b = true -> a = b.
+Proof.
+  destruct a, b; cbn; intros H; try discriminate H; [apply ps_eqb_eq in H; congruence|reflexivity].
+Qed.
+
+(* the closed form [ctor_decimal] explains every probe of the live constructor *)
+Lemma ctor_probes_explained :
+  forallb (fun pr => got_eqb (snd pr) (Some (ctor_decimal (fst (fst pr)) (snd (fst pr))))) ctor_dec_probes = true.
+Proof. vm_compute. reflexivity. Qed.
+
+Lemma ctor_model_matches_probes p s got :
+  In ((p, s), got) ctor_dec_probes -> got = Some (ctor_decimal p s).
+Proof.
+  intros Hin. pose proof ctor_probes_explained as H. rewrite forallb_forall in H.
+  specialize (H _ Hin). cbn [fst snd] in H. apply got_eqb_eq in H. exact H.
+Qed.
+
+Definition zrange (lo : Z) (n : nat) : list Z := map (fun i => (lo + Z.of_nat i)%Z) (seq 0 n).
+
+Lemma In_zrange lo n z : (lo <= z < lo + Z.of_nat n)%Z -> In z (zrange lo n).
+Proof.
+  intros H. unfold zrange. apply in_map_iff. exists (Z.to_nat (z - lo)). split; [lia|].
+  apply in_seq. lia.
+Qed.
+
+Definition probe_eqb (a b : (option Z * option Z) * option (option Z * option Z)) : bool :=
+  ps_eqb (fst a) (fst b) && got_eqb (snd a) (snd b).
+
+Definition byname_eqb (a b : (Z * Z) * option (option Z * option Z)) : bool :=
+  (fst (fst a) =? fst (fst b))%Z && (snd (fst a) =? snd (fst b))%Z && got_eqb (snd a) (snd b).
+
+(* on the whole grid the live constructor was seen to keep (p, s): by attribute and by type name *)
+Definition grid_cell (p s : Z) : bool :=
+  existsb (probe_eqb ((Some p, Some s), Some (Some p, Some s))) ctor_dec_probes
+  && existsb (byname_eqb ((p, s), Some (Some p, Some s))) ctor_dec_byname_probes.
+
+Definition grid_row (p : Z) : bool := forallb (grid_cell p) (zrange 0 (S (Z.to_nat p))).
+
+Lemma grid_kept_true : forallb grid_row (zrange 1 38) = true.
+Proof. vm_compute. reflexivity. Qed.
+
+Lemma ctor_grid_probed p s :
+  (1 <= p <= 38)%Z -> (0 <= s <= p)%Z ->
+  In ((Some p, Some s), Some (Some p, Some s)) ctor_dec_probes /\
+  In ((p, s), Some (Some p, Some s)) ctor_dec_byname_probes.
+Proof.
+  intros Hp Hs. pose proof grid_kept_true as G.
+  rewrite forallb_forall in G. specialize (G p (In_zrange 1 38 p ltac:(lia))). unfold grid_row in G.
+  rewrite forallb_forall in G. specialize (G s (In_zrange 0 (S (Z.to_nat p)) s ltac:(lia))). unfold grid_cell in G.
+  apply andb_prop in G as [G1 G2]. split.
+  - apply existsb_exists in G1 as [[[xp xs] xg] [Hin Hx]]. unfold probe_eqb in Hx. cbn [fst snd] in Hx.
+    apply andb_prop in Hx as [Ha Hb]. apply ps_eqb_eq in Ha. apply got_eqb_eq in Hb.
+    inversion Ha; subst. exact Hin.
+  - apply existsb_exists in G2 as [[[xp xs] xg] [Hin Hx]]. unfold byname_eqb in Hx. cbn [fst snd] in Hx.
+    apply andb_prop in Hx as [Ha Hb]. apply andb_prop in Ha as [Ha1 Ha2].
+    apply Z.eqb_eq in Ha1. apply Z.eqb_eq in Ha2. apply got_eqb_eq in Hb. subst. exact Hin.
+Qed.
+
+(* DECIMAL(p, s) as ASKED FOR: construct, map to Arrow, map back (through the constructor again): same p, s *)
+Lemma requested_decimal_round_trip p s nm nl :
+  (1 <= p <= 38)%Z -> (0 <= s <= p)%Z ->
+  construct (mkCol nm ty_DECIMAL None (Some p) (Some s) nl) = mkCol nm ty_DECIMAL None (Some p) (Some s) nl /\
+  exists f, arrow_field (construct (mkCol nm ty_DECIMAL None (Some p) (Some s) nl)) = Ok f /\ fname f = nm /\
+            from_arrow_field false f = Ok (mkCol nm ty_DECIMAL None (Some p) (Some s) (fnullable f)).
+Proof.
+  intros Hp Hs.
+  assert (E : construct (mkCol nm ty_DECIMAL None (Some p) (Some s) nl) = mkCol nm ty_DECIMAL None (Some p) (Some s) nl).
+  { unfold construct. cbn [cname ctype celem cprec cscale cnullable]. apply flat_column_fixed.
+    unfold ctor_fixed. cbn [is_none negb andb]. apply orb_true_r. }
+  split; [exact E|]. rewrite E. apply type_round_trip_decimal; assumption.
+Qed.
+
+(* a column built from an Arrow decimal128(p, s) field describes it as DECIMAL(p, s) *)
+Lemma arrow_decimal_described p s nm nl i :
+  assoc ty_DECIMAL top_table = Some (TmDecimal i) ->
+  from_arrow_field false (mkField nm (ADec i p s) nl) = Ok (mkCol nm ty_DECIMAL None (Some p) (Some s) nl).
+Proof.
+  intros E1. pose proof dec_tables_ok_true as K. unfold dec_tables_ok in K. rewrite E1 in K.
+  destruct (assoc i atm_table) as [[| |[|] [|]]|] eqn:E2; try discriminate K.
+  unfold from_arrow_field, from_arrow_type, arrow_type_map. cbn [ftype fname fnullable atype_id]. rewrite E2.
+  cbn [pick bind]. rewrite flat_column_fixed; [reflexivity|].
+  unfold ctor_fixed. cbn [is_none negb andb]. apply orb_true_r.
+Qed.
 
 (* the concrete instances used by the correspondence satisfy the oracle premises *)
 Lemma pt_rows_ok : forall (t : list (list cell)) (b : N), (1 <= b)%N -> pt_rows t b = (fun x => x) t.
